@@ -33,7 +33,4 @@ func S_validate_Sample() {
 	for _, o := range cases {
 		vp.Emit("validate", TdxQuote(quote, o))
 	}
-	vp.Emit("xfam-ok", validateXfam(body.Xfam, xfamFixed1, xfamFixed0))
-	vp.Emit("xfam-bad", validateXfam([]byte{0, 0, 0, 0, 0, 0, 0, 0}, xfamFixed1, xfamFixed0))
-	vp.Emit("tdattr-bad", validateTdAttributes([]byte{2, 0, 0, 0, 0, 0, 0, 0}, tdAttributesFixed1, tdAttributesFixed0))
 }
